@@ -3,7 +3,7 @@ and a seeded random generator.  All produce the abstract case of pcase.py."""
 import re, random, itertools
 
 
-def gram(cid, text, bounds=True):
+def gram(cid, text, bounds=True, terms0=None):
     """DSL:  one rule per line `name = alt | alt`, first rule is @start unless
     a line starts with '@start'.  Terms: UPPER tokens, lower rules, suffixes
     ? * + *! ; @list(x,y) ; @list(x,y)? ; @error ; @empty ; @left(n)/@right(n)."""
@@ -17,7 +17,7 @@ def gram(cid, text, bounds=True):
         name, rhs = l.split("=", 1)
         rules.append([name.strip(), rhs.strip(), start])
         names.append(name.strip())
-    terms = []
+    terms = list(terms0 or [])      # preset terminal order (the numbering of a given @lexer section)
 
     def sym(s):
         if s in names:
@@ -474,3 +474,41 @@ def self_nesting():
         ("nest-rightrec-list", "s = l\nl = X l Y | X | A"),
     ]
     return [gram(n, t) for n, t in shapes]
+
+
+def mixed_conflict_family():
+    """one LALR state carrying conflicts on several lookaheads, some settled by the documented precedence rule and
+    some not (reduce/reduce, cross-rule or unqualified shift/reduce), with the terminal of the unsettled one sorting
+    before / between / after the settled ones (lox visits the lookaheads of a state in terminal-name order and the
+    states in construction order: the verdict must be the disjunction over all cells, not that of the last cell);
+    plus the multi-state versions (a fully settled state declared before / after an unsettled one)"""
+    out = []
+    unsettled = {
+        # reduce/reduce on EOF between rules t and e
+        "rr-eof": "s = e | t\nt = e {P} e\ne = e {P} e @left(1) | e {Q} e @left(2) | N",
+        # reduce/reduce on a named terminal
+        "rr-x": "s = e {X} | t {X}\nt = e {P} e\ne = e {P} e @left(1) | e {Q} e @left(2) | N",
+        # shift/reduce against an unqualified production of the same rule
+        "sr-unq": "e = e {P} e @left(1) | e {Q} e @left(2) | e {X} e | N",
+        # shift/reduce against a production of another rule
+        "sr-cross": "s = e | e {X} s\ne = e {P} e @left(1) | e {Q} e @left(2) | u\nu = N | N {X} N",
+        # reduce/reduce between two qualified productions of one rule
+        "rr-qual": "e = e {P} e @left(1) | e {Q} e @left(2) | n {X} @left(3) | m {X} @left(4) | N\nn = M\nm = M",
+    }
+    orders = {"first": ("TA", "TM", "TZ"), "mid": ("TM", "TA", "TZ"), "last": ("TZ", "TA", "TM")}   # X, P, Q
+    for un, txt in unsettled.items():
+        for on, (x, p, q) in orders.items():
+            out.append(gram("mixc-%s-%s" % (un, on), txt.replace("{X}", x).replace("{P}", p).replace("{Q}", q)))
+    # a control per order: the same operator rule alone is settled everywhere (must be accepted)
+    for on, (x, p, q) in orders.items():
+        out.append(gram("mixc-settled-%s" % on, "e = e %s e @left(1) | e %s e @right(2) | %s e @left(3) | N" % (p, q, x)))
+    # two independent sub-languages: one settled, one not, in both declaration orders and both name orders
+    good = "g = g {P} g @left(1) | G"
+    bad = "b = b {X} b | B"
+    for on, (x, p, q) in orders.items():
+        for first in ("good", "bad"):
+            body = (good + "\n" + bad) if first == "good" else (bad + "\n" + good)
+            for top in ("s = g | K b", "s = K b | g"):
+                out.append(gram("mixc-two-%s-%s-%d" % (on, first, len(out)),
+                                (top + "\n" + body).replace("{X}", x).replace("{P}", p)))
+    return out
